@@ -8,7 +8,8 @@ from . import common as C
 from . import cases as K
 
 # mid -> (MockFn path, number of arguments)
-METHODS = {0: ("TMock::m0", 1), 1: ("TMock::m1", 1), 2: ("TMock::m2", 1), 3: ("TMock::m3", 1),
+METHODS = {8: ("unimock::mock::std::process::TerminationMock::report", 0),     # Inputs = (), output ExitCode
+           0: ("TMock::m0", 1), 1: ("TMock::m1", 1), 2: ("TMock::m2", 1), 3: ("TMock::m3", 1),
            10: ("DMock::r0", 1), 11: ("DMock::r1", 1), 12: ("DMock::u2", 2), 13: ("DMock::u3", 2),
            14: ("DMock::p_ref", 1), 15: ("DMock::p_mut", 1), 16: ("DMock::p_val", 1), 17: ("DMock::p_rc", 1),
            18: ("DMock::p_arc", 1), 19: ("DMock::p_pin", 1), 20: ("DMock::m_mut", 1),
@@ -22,7 +23,9 @@ PROVIDED_D = [14, 15, 16, 17, 18, 19, 21, 22, 24, 26, 27, 28, 30, 32]
 def rust_pat(mid, p):
     path, nargs = METHODS[mid]
     body = ""
-    if p["matcher"] is not None:
+    if p["matcher"] is not None and nargs == 0:
+        body += f"m.func(|_: &(), _| ({p['matcher']}u64 >> 8) & 1 == 1); "       # the model's argument code of the empty tuple is 8
+    elif p["matcher"] is not None:
         arg = "*a" if nargs == 1 else "a.0"
         ty = "u8" if nargs == 1 else "(u8, u8)"
         body += f"m.func(|a: &{ty}, _| ({p['matcher']}u64 >> {arg}) & 1 == 1); "
@@ -36,7 +39,8 @@ def rust_ops(mid, ops):
     s = ""
     for o in ops:
         k = o[0]
-        if k == "ret": s += f".returns(Val::new(\"r{o[1]}\"))"
+        if k == "ret" and nargs == 0: s += f".returns(std::process::ExitCode::from({o[1]}u8))"
+        elif k == "ret": s += f".returns(Val::new(\"r{o[1]}\"))"
         elif k == "retd": s += ".returns_default()"
         elif k in ("ans", "ansarc"):
             params = "_, a" if nargs == 1 else "_, a, _b"
